@@ -19,7 +19,7 @@ META = {
     'functions': ['enspara.msm.msm.MSM.__init__/fit/from_assignments', 'enspara.msm.transition_matrices.eigenspectrum/eq_probs/'
                   'assigns_to_counts/trim_disconnected', 'enspara.msm.timescales.calc_imp_times',
                   'enspara.msm.synthetic_data.synthetic_ensemble'],
-    'bounds': {'quick': 'fit vs pipeline: 2 trajectories (lengths 3,2 / 4), 2 states, lag 1..2, trim on/off, sliding on/off, '
+    'bounds': {'quick': 'fit vs pipeline: 2 trajectories (lengths 3,2 / 4), 2 states (3 states with the state count inferred on both sides), lag 1..2, trim on/off, sliding on/off, '
                         'builders normalize(no eq)/transpose through the public callable-method API on dense counts AND on the sparse (coo) counts the default path hands them; spectrum n<=3 '
                         '(n_eigs, left/right); timescales n=2; ensemble n<=3, steps<=3',
                'thorough': 'fit vs pipeline for length vectors up to 7 frames in <=3 trajectories, lag<=3, 2 states; spectrum n<=3 (n=4: solver unknown, not claimed); ensembles n<=4, <=5 steps'},
